@@ -8,6 +8,7 @@ import (
 	"fmt"
 	"math"
 	"math/big"
+	"math/bits"
 )
 
 const debugDecimal = false // enable for debugging
@@ -433,7 +434,7 @@ func (x *Decimal) Float(z *big.Float) *big.Float {
 	}
 	p := uint(z.Prec())
 	if p == 0 {
-		p = uint(max(int(math.Ceil(float64(x.prec)*log2_10)), 64))
+		p = uint(max(int(ceilLog2_10(x.prec)), 64))
 	}
 
 	// clear z
@@ -1068,7 +1069,7 @@ func (z *Decimal) Set(x *Decimal) *Decimal {
 //  z.SetMode(m).SetPrec(p)
 func (z *Decimal) SetFloat(x *big.Float) *Decimal {
 	if z.prec == 0 {
-		z.prec = uint32(math.Ceil(float64(x.Prec()) * log10_2))
+		z.prec = ceilLog10_2(uint32(x.Prec()))
 	}
 	z.acc = Exact
 	z.neg = x.Signbit()
@@ -1200,6 +1201,28 @@ func (z *Decimal) SetInf(signbit bool) *Decimal {
 
 const log2_10 = math.Ln10 / math.Ln2
 const log10_2 = math.Ln2 / math.Ln10
+
+// ceilMulFrac returns ⌈n·f⌉ for the irrational 0 < f < 1 given by the first
+// 128 bits of its binary fraction. (In float64 the product is off by up to
+// n·2**-53, which decides the ceiling the wrong way where n·f comes close to an
+// integer: 198096465·log10(2) = 59632978.0000000005.)
+func ceilMulFrac(n uint32, fhi, flo uint64) uint64 {
+	if n == 0 {
+		return 0
+	}
+	hi, lo := bits.Mul64(uint64(n), fhi)
+	c, _ := bits.Mul64(uint64(n), flo)
+	_, c = bits.Add64(lo, c, 0)
+	return hi + c + 1
+}
+
+// ceilLog10_2 returns ⌈n·log10(2)⌉, ceilLog2_10 returns ⌈n·log2(10)⌉.
+func ceilLog10_2(n uint32) uint32 {
+	return uint32(ceilMulFrac(n, 0x4d104d427de7fbcc, 0x47c4acd605be48bc))
+}
+func ceilLog2_10(n uint32) uint64 {
+	return 3*uint64(n) + ceilMulFrac(n, 0x5269e12f346e2bf9, 0x24afdbfd36bf6d33)
+}
 
 // SetInt sets z to the (possibly rounded) value of x and returns z. If z's
 // precision is 0, it is changed, after conversion, to max(z.MinPrec(), DefaultDecimalPrec) (and
